@@ -716,6 +716,35 @@ def check_ifu_scatter(rec, rng, inp):
               "model Dd != dd (1+gamma_ppn)/2 with zero spread", inp, [ddm, dds_], [dd_s, 0])
 
 
+def check_many_bins(rec, rng, inp):
+    """an IFU map with very many bins (det of the covariance leaves the binary64 range, its logarithm does not): the NORMALISED lens
+    log-likelihood is still the multivariate-normal log-density of the reported measurement given the reported prediction and covariances"""
+    from scipy.stats import multivariate_normal
+    cd = gen_cosmo(rng); cosmo = make_cosmo(cd)
+    n = int(rng.choice([110, 160, 240]))
+    zl = float(rng.uniform(0.2, 0.8)); zs = float(rng.uniform(zl + 0.5, 3.0))
+    ddt, dd, _, _ = dist(cosmo, zl, zs)
+    dsdds = ddt / dd / (1 + zl)
+    sv_true = rng.uniform(180, 320, n)
+    j = (sv_true / C_KMS) ** 2 / dsdds
+    a = rng.normal(size=(n, n)) * 0.5
+    cov_m = np.diag(rng.uniform(10, 20, n) ** 2) + a @ a.T
+    lens = dict(z_lens=zl, z_source=zs, likelihood_type="IFUKinCov", sigma_v_measurement=list(sv_true + rng.normal(0, 12, n)), j_model=list(j),
+                error_cov_measurement=cov_m, error_cov_j_sqrt=np.diag((0.02 * np.sqrt(j)) ** 2))
+    inp = dict(inp, cosmo=cd, n_bins=n, z_lens=zl, z_source=zs)
+    rec.case(dict(check="many_bins", n=n), kind="many_bins:%d" % n)
+    try:
+        ll = LensLikelihood(normalized=True, **lens)
+        kw = dict(kwargs_lens=dict(lambda_mst=1.0, gamma_ppn=1.0), kwargs_kin={})
+        v = fscalar(ll.lens_log_likelihood(cosmo, **kw))
+        m, Cm, pv, Cp = ll.sigma_v_measured_vs_predict(cosmo, **kw)
+    except Exception as e:
+        rec.check(False, "C14:sharp_kin:raises", "goodness-of-fit call raised on a valid sharp configuration (many bins)", inp, repr(e)); return
+    ref = float(multivariate_normal(mean=np.asarray(pv, float), cov=np.asarray(Cm, float) + np.asarray(Cp, float), allow_singular=False).logpdf(np.asarray(m, float)))
+    rec.check(np.isfinite(v) and abs(v - ref) <= 1e-7 * max(1.0, abs(ref)), "C14:sharp_kin:value",
+              "normalised log-likelihood != multivariate-normal log-density of the reported measurement / prediction / covariances (%d bins)" % n, inp, v, ref)
+
+
 # ------------------------------------------------------------------------------------------------
 # sub-check: ddt_measurement
 # ------------------------------------------------------------------------------------------------
@@ -816,10 +845,10 @@ def check_scatter_q(rec, rng, inp):
 
 
 CHECKS = dict(sharp_kin=check_sharp_kin, scatter=check_scatter_q, ddt_meas=check_ddt_meas, chi2=check_chi2,
-              chi2_zero=check_chi2_zero, ifu_scatter=check_ifu_scatter)
-SALT = dict(sharp_kin=1, scatter=2, ddt_meas=3, chi2=4, chi2_zero=5, ifu_scatter=6)
-PLAN = dict(quick=dict(sharp_kin=120, scatter=12, ddt_meas=42, chi2=60, chi2_zero=50, ifu_scatter=24),
-            thorough=dict(sharp_kin=1500, scatter=120, ddt_meas=280, chi2=700, chi2_zero=500, ifu_scatter=300))
+              chi2_zero=check_chi2_zero, ifu_scatter=check_ifu_scatter, many_bins=check_many_bins)
+SALT = dict(sharp_kin=1, scatter=2, ddt_meas=3, chi2=4, chi2_zero=5, ifu_scatter=6, many_bins=7)
+PLAN = dict(quick=dict(sharp_kin=120, scatter=12, ddt_meas=42, chi2=60, chi2_zero=50, ifu_scatter=24, many_bins=4),
+            thorough=dict(sharp_kin=1500, scatter=120, ddt_meas=280, chi2=700, chi2_zero=500, ifu_scatter=300, many_bins=30))
 NDRAW = dict(quick=1500, thorough=4000)
 
 
